@@ -113,7 +113,14 @@ namespace occa {
     if (offset + bytes <= size) {
       return slice(offset, bytes);
     } else {
-      resize(reserved + alignedBytes);
+      /*
+      The free space is fragmented: pack the reservations and append.
+      resize() is a no-op when the size does not change, which would leave
+      the pool unpacked and put the new reservation on top of a live one
+      */
+      udim_t newSize = reserved + alignedBytes;
+      if (newSize == size) newSize += alignment;
+      resize(newSize);
       return slice(reserved, bytes);
     }
   }
